@@ -236,7 +236,7 @@ class Call:
             # built again for new data, which does not need to contain every level.
             if set(levels) != set(data):
                 raise ValueError("The levels beign assigned and the levels in the data differ")
-            categories = levels
+            categories = list(levels)
 
         dtype = pd.api.types.CategoricalDtype(categories=categories, ordered=True)
         data = pd.Categorical(data).astype(dtype)
